@@ -20,6 +20,7 @@ pub fn spec(prop: &str) -> Option<CheckSpec> {
                 Family { name: "c11-file", gen: gen::c11_file, quick: 3_000, thorough: 60_000, judge: Judge::Exec },
                 Family { name: "c11-special", gen: gen::c11_special, quick: 600, thorough: 20_000, judge: Judge::Exec },
                 Family { name: "c11-bigwrite", gen: gen::c11_bigwrite, quick: 1_500, thorough: 40_000, judge: Judge::Exec },
+                Family { name: "c11-syscall", gen: gen::c11_syscall, quick: 320, thorough: 10_000, judge: Judge::Exec },
             ],
             real: REAL_RUST.to_vec(),
             stubs: vec!["the reader behind update_reader is the simulator's SimReader (the seam under test)"],
@@ -146,6 +147,7 @@ pub fn spec(prop: &str) -> Option<CheckSpec> {
             families: vec![
                 Family { name: "c12-hash", gen: gen::c12_hash, quick: 1_500, thorough: 30_000, judge: Judge::Exec },
                 Family { name: "c12-check", gen: gen::c12_check, quick: 1_200, thorough: 30_000, judge: Judge::Exec },
+                Family { name: "c12-syscall", gen: gen::c12_syscall, quick: 240, thorough: 8_000, judge: Judge::Exec },
             ],
             real: vec!["/repo/b3sum/src/main.rs built through /verif/shadow/b3sum (release)", "/repo/src", "clap, rayon-core, memmap2, anyhow, hex", "kernel VFS, pipes, process exit status"],
             stubs: vec!["wild::args_os = std::env::args_os (what wild is on Unix)", "clap without the wrap_help feature (terminal_size not in the cargo cache)"],
